@@ -205,6 +205,9 @@ def check_kinds(kinds, M):
         p.parse(sc, c02.StubMatcher())
     except ParserError:
         pass
+    except probe.WorkBoundExceeded as e:
+        M.violation("C18.kinds_lines", {"what": "kind-level parse did not terminate within the read bound", "kinds": kinds, "error": str(e)}, case)
+        return
     lines = [e[2] for e in b.events if e[0] == "build"]
     unexpected = {l for l, _ in want_err}
     exp = [l for l in range(1, len(kinds) + 1) if l not in unexpected] + ([] if (len(kinds) + 1) in unexpected else ["EOF"])
